@@ -50,14 +50,27 @@ func chunkedEncode(rt *rapid.T, body []byte) []byte {
 func TestC27(t *testing.T) {
 	rec := ev.New("C27", "a harness backend answers with a generated well-formed raw response (status incl. 1xx/204/304, framing: Content-Length / chunked / close-delimited / HTTP/1.0, Connection options, end-to-end fields, bodies 0..70000 B) to a generated client request (GET/HEAD/POST, HTTP/1.0|1.1, keep-alive/close) through an in-process BFE; client-side bytes are parsed by a strict RFC 7230 response parser and a pipelined sentinel request detects trailing garbage. non-trivial: anything but GET/HTTP/1.1 with 200+Content-Length; distinct by request+response shape")
 	w := startWorld(t, 1, sys.Options{}, func(ports []int) *sys.DataConf {
+		// three clusters on the same backend that differ in ResFlushInterval
+		// (-1 flush immediately = shipped default, 0 never, 3 ms periodic)
 		cl := sys.OneBackendCluster("c", ports[0])
 		cl.TimeoutResponseHeaderMs = 3000
-		return sys.SimpleConf("v0", []sys.Cluster{cl}, nil)
+		cf0 := sys.OneBackendCluster("cf0", ports[0])
+		cf0.TimeoutResponseHeaderMs = 3000
+		cf0.ResFlushIntervalMs = sys.ResFlushZero
+		cf3 := sys.OneBackendCluster("cf3", ports[0])
+		cf3.TimeoutResponseHeaderMs = 3000
+		cf3.ResFlushIntervalMs = 3
+		return sys.SimpleConf("v0", []sys.Cluster{cl, cf0, cf3}, []sys.Rule{
+			{Cond: `req_path_prefix_in("/c27f0/", false)`, Cluster: "cf0"},
+			{Cond: `req_path_prefix_in("/c27f3/", false)`, Cluster: "cf3"},
+			{Cond: `default_t()`, Cluster: "c"},
+		})
 	})
 	n := 0
 	rapid.Check(t, func(rt *rapid.T) {
 		n++
-		target := fmt.Sprintf("/c27/%d", n)
+		flush := rapid.SampledFrom([]string{"c27", "c27", "c27f0", "c27f3", "c27f3"}).Draw(rt, "flush-cluster")
+		target := fmt.Sprintf("/%s/%d", flush, n)
 		method := rapid.SampledFrom([]string{"GET", "GET", "HEAD", "POST"}).Draw(rt, "method")
 		cver := rapid.SampledFrom([]string{"HTTP/1.1", "HTTP/1.1", "HTTP/1.0"}).Draw(rt, "cver")
 		cconn := rapid.SampledFrom([]string{"", "keep-alive", "close"}).Draw(rt, "cconn")
@@ -70,6 +83,12 @@ func TestC27(t *testing.T) {
 		bconn := rapid.SampledFrom([]string{"", "close", "keep-alive"}).Draw(rt, "bconn")
 		noBody := method == "HEAD" || status/100 == 1 || status == 204 || status == 304
 		body := c27Body(rt)
+		slowClient := rapid.IntRange(0, 11).Draw(rt, "slow-client") == 0
+		if slowClient {
+			// large enough to fill the loopback socket buffers while the client is not reading
+			big := rapid.SampledFrom([]int{300000, 1200000, 3000000}).Draw(rt, "bigbody")
+			body = bytes.Repeat(append(body, 'z'), big/(len(body)+1)+1)[:big]
+		}
 		ne2e := rapid.IntRange(0, 3).Draw(rt, "ne2e")
 		var e2e []ref.Field
 		for i := 0; i < ne2e; i++ {
@@ -109,7 +128,11 @@ func TestC27(t *testing.T) {
 			raw.Write(body)
 			wantBody = body
 		}
-		w.setScript(target, &respScript{Raw: raw.Bytes(), CloseAfter: closeAfter})
+		var bursts []int
+		for i, nb := 0, rapid.IntRange(0, 4).Draw(rt, "nbursts"); i < nb; i++ {
+			bursts = append(bursts, rapid.SampledFrom([]int{1, 40, 100, 300, 511, 600, 1500, 2000, 5000}).Draw(rt, "burst"))
+		}
+		w.setScript(target, &respScript{Raw: raw.Bytes(), CloseAfter: closeAfter, Bursts: bursts})
 		// client request
 		var rq bytes.Buffer
 		fmt.Fprintf(&rq, "%s %s %s\r\nHost: example.org\r\n", method, target, cver)
@@ -123,7 +146,11 @@ func TestC27(t *testing.T) {
 		}
 		shape := fmt.Sprintf("%s %s conn=%q | %s %d %s bconn=%q len=%d e2e=%d", method, cver, cconn, bver, status, framing, bconn, len(body), ne2e)
 		trivial := method == "GET" && cver == "HTTP/1.1" && status == 200 && framing == "cl" && bver == "HTTP/1.1" && bconn == "" && cconn == ""
-		cls := []string{"framing:" + framing, fmt.Sprintf("status:%dxx", status/100), "method:" + method, "client:" + cver}
+		shape += fmt.Sprintf(" flush=%s bursts=%v slow=%v", flush, bursts, slowClient)
+		cls := []string{"framing:" + framing, fmt.Sprintf("status:%dxx", status/100), "method:" + method, "client:" + cver, "flush:" + flush, fmt.Sprintf("bursts:%d", len(bursts))}
+		if slowClient {
+			cls = append(cls, "slow-client")
+		}
 		if noBody {
 			cls = append(cls, "bodiless")
 		}
@@ -137,7 +164,12 @@ func TestC27(t *testing.T) {
 		}
 		defer c.Close()
 		c.Write(rq.Bytes())
-		respBytes, m, closed, perr := readOneResponse(c, method, 8*time.Second)
+		if slowClient {
+			// a client that does not read for a while: with a large body BFE's writes
+			// (and periodic flushes) block on it while the backend body ends
+			time.Sleep(40 * time.Millisecond)
+		}
+		respBytes, m, closed, perr := readOneResponse(c, method, 15*time.Second)
 		w.forget(target)
 		wit["client_got"] = clipS(respBytes)
 		if perr != nil {
